@@ -1684,9 +1684,11 @@ class Executor:
                 else:
                     raise OutOfSubset("missing argument %s for %s" % (p, c.qualname), node)
         tag = "call@L%d:%s" % (node.lineno - self.fn.lineno, c.qualname.split(".")[-1])
+        pc_before = len(self.pc)
         for item in c.pre(S, cenv):
             cl = clause(item)
             self.oblige("%s/pre#%s" % (tag, cl.name), cl.expr, node, "call-pre", uses=cl.uses, by=cl.by, prop=cl.prop)
+        pc_after_pre = len(self.pc)
         old = V.clone(cenv)
         # havoc the frame
         if receiver is not None:
@@ -1709,7 +1711,33 @@ class Executor:
                 raise OutOfSubset("postcondition %s of %s is structurally false on the caller-side result shape (sidecar inconsistency)" % (cl.name, c.qualname), node)
             self.assume(cl.expr, "%s/post#%s" % (tag, cl.name))
         self.assumed.append("contract of %s assumed at call site L%d" % (c.qualname, node.lineno))
+        self.check_call_consistency(c, pc_before, pc_after_pre, node)
         return result
+
+    def check_call_consistency(self, c, pc_before, pc_after_pre, node):
+        """guard against a silently pruned path: the callee's postcondition is ASSUMED; if it contradicts what is known about the caller's state
+        (typically a clause about a field the sidecar forgot to put into the callee's frame, so that it constrains the PRE-state) every obligation
+        after the call would hold vacuously.  Only a definite `unsat` counts; the caller is then UNDECIDED (sidecar inconsistency), never a pass."""
+        if len(self.pc) == pc_after_pre:
+            return
+        key = (id(c), tuple(self.trace))
+        seen = self.__dict__.setdefault("_consistency_seen", set())
+        if key in seen:
+            return
+        seen.add(key)
+        s = z3.Solver()
+        s.set("timeout", 1500)
+        for p_ in self.pc[:pc_before] + self.pc[pc_after_pre:]:
+            s.add(p_)
+        if s.check() != z3.unsat:
+            return
+        s0 = z3.Solver()
+        s0.set("timeout", 1500)
+        for p_ in self.pc[:pc_before]:
+            s0.add(p_)
+        if s0.check() == z3.unsat:
+            return                      # the path was already infeasible before the call (quantified facts the branch pruning does not use)
+        raise OutOfSubset("postcondition of %s contradicts the caller's state at the call (sidecar inconsistency: a clause constrains a field outside the callee's frame)" % c.qualname, node)
 
 
 ALLOWED_DECORATORS = {"staticmethod", "abc.abstractmethod", "abstractmethod", "classmethod", "property"}
